@@ -4,6 +4,7 @@ C05 — executable model of the permission mediation around view bodies.
 
 Mirrors (file:lines of /repo/src/pyramid):
 * `viewderivers.py:283-333`  `secured_view` / `_secured_view`   → `effPerm`, `deriveOne`, layer `secured` of `runLayers`
+* `config/views.py:206-226`  `viewdefaults` (`__view_defaults__`)  → `classDefault`, `stmtPerm`
 * `viewderivers.py:214-241`  `owrapped_view`                    → layer `owrapped` (inner view first, then the wrapper
                                                                    view through `render_view_to_response`, `secure=True`)
 * `config/views.py:183-203`  `predicated_view`                  → layer `predicated`
@@ -62,6 +63,8 @@ structure ViewStmt where
   preds : List Nat
   wrapper : Option Nat   -- `wrapper=` view name
   act : Nat              -- what the body does: 0 = returns a response, k > 0 = raises exception kind k
+  vdOwn : Option PermArg := none   -- the view is a class carrying its OWN `__view_defaults__` (with this `permission`)
+  vdBase : Option PermArg := none  -- a base class of the view carries `__view_defaults__` (with this `permission`)
 deriving DecidableEq, Repr
 
 inductive Stmt
@@ -118,6 +121,20 @@ structure DView where
   act : Nat
 deriving DecidableEq, Repr
 
+/-- `config/views.py:206-226` `viewdefaults` (wrapped around `add_view` and the forbidden / notfound / exception
+directives): `getattr(view, '__view_defaults__', {})` — ordinary attribute lookup, so the class's own dict REPLACES an
+inherited one wholesale, and an undecorated subclass sees its base's -/
+def classDefault (own base : Option PermArg) : PermArg :=
+  match own with
+  | some p => p
+  | none => base.getD .absent
+
+/-- `defaults.update(kw)`: an explicit `permission=` argument wins over the class-level default -/
+def stmtPerm (v : ViewStmt) : PermArg :=
+  match v.perm with
+  | .absent => classDefault v.vdOwn v.vdBase
+  | x => x
+
 /-- `_secured_view`: explicit permission, else the default unless `exception_only`; the marker means none -/
 def effPerm (dflt : PermArg) (perm : PermArg) (excOnly : Bool) : Option Nat :=
   let p := match perm with
@@ -136,7 +153,7 @@ deriving Repr
 
 def deriveOne (policy : Bool) (dflt : PermArg) (v : ViewStmt) (excVariant : Bool) : DView :=
   { tag := v.tag, name := v.name, route := v.route, ctxClass := v.ctxClass, exc := excVariant, order := v.order,
-    preds := v.preds, guard := if policy then effPerm dflt v.perm excVariant else none,
+    preds := v.preds, guard := if policy then effPerm dflt (stmtPerm v) excVariant else none,
     wrapper := v.wrapper, act := v.act }
 
 /-- `add_view.register`: `if not exception_only: normal variant`, `if isexc: exception variant` -/
